@@ -195,6 +195,8 @@ func runC06(r *Run, replay *Case) {
 	for _, cs := range c06Cases() {
 		if _, viaLayout := cs.files["layouts/main.vuego"]; !viaLayout {
 			r.Add(pageCase("slots:"+cs.desc, cs.files, nil, "p.vuego", cs.data))
+		} else {
+			r.Add(layoutPageCase("slots:"+cs.desc, cs.files, "p.vuego", cs.data))
 		}
 		sub, verdict := runIsolated("C06", map[string]any{"desc": cs.desc}, cs.desc, 20*time.Second)
 		c := &Case{Name: cs.desc, Input: map[string]any{"desc": cs.desc, "files": cs.files}, Key: cs.desc, Tags: []string{"isolated"}}
